@@ -47,8 +47,8 @@ ProgReact(g, inp) ==
   ELSE IF InTry(g.p.at) /\ Catches(inp.v) THEN ToCleanup(inp.v)
   ELSE Reaction("raise", NoMsg, inp.v, NoP)
 
-DevCmds == {"read", "set", "trigger", "stage", "unstage"}
-StatusCmds == {"set", "trigger"}
+DevCmds == {"read", "set", "trigger", "stage", "unstage", "kickoff", "complete", "collect"}
+StatusCmds == {"set", "trigger", "kickoff", "complete"}
 
 MCInit == Init /\ MonInit /\ env = [nreq |-> 0, nfault |-> 0, ncall |-> 0, nupd |-> 0, nsus |-> 0, susp |-> {}]
 
@@ -71,7 +71,13 @@ MCNext ==
   \* (REMC follows the discipline of the harness, on which the monitors' accounting of suspender trips relies: what a
   \*  suspender operation has scheduled on the loop lands before the run task takes its next step; RE.tla itself allows
   \*  the run task to step in between -- RETrace would accept such a trace)
-  \/ LoopQuiet /\ (Start \/ Top \/ Wake \/ AfterSleep0 \/ (\E b \in BOOLEAN : DeliverCancel(b)) \/ CmdDone \/ Exit \/ TailStep \/ Finally(CloseReact) \/ AOpsStep(CloseReact) \/ AOpsCancel) /\ UNCHANGED env
+  \/ LoopQuiet /\ (Start \/ Top \/ Wake \/ AfterSleep0 \/ (\E b \in BOOLEAN : DeliverCancel(b)) \/ CmdDone \/ Exit \/ TailStep \/ Finally(CloseReact, {}) \/ AOpsStep(CloseReact, {}) \/ AOpsCancel
+                   \/ CollectDone("ok") \/ Backstop(CloseReact, {}) \/ BackCancel) /\ UNCHANGED env
+  \* a flyer whose collect() raises: inside the command, or inside the engine's backstop collection
+  \/ /\ LoopQuiet /\ env.nfault < MaxFaults /\ "raise" \in FaultKinds
+     /\ \/ CollectDone("raise")
+        \/ \E f \in Flyers : Finally(CloseReact, {f}) \/ AOpsStep(CloseReact, {f}) \/ Backstop(CloseReact, {f})
+     /\ Bump("nfault")
   \/ /\ env.nreq < MaxReq
      /\ \/ "pause" \in ReqKinds /\ ReqPause(FALSE) /\ Bump("nreq")
         \/ "defer" \in ReqKinds /\ ReqPause(TRUE) /\ Bump("nreq")
